@@ -9,6 +9,7 @@ import (
 	gio "io"
 	"math/big"
 	"strconv"
+	"strings"
 )
 
 // decoder is a wrapper around json.Decoder helping to mimic C# json decoder behavior.
@@ -26,6 +27,11 @@ type decoder struct {
 
 // MaxAllowedInteger is the maximum integer allowed to be encoded.
 const MaxAllowedInteger = 2<<53 - 1
+
+// maxNumberExponent is the maximum absolute value of decimal exponent of JSON
+// number accepted by the decoder. It's way bigger than anything a 256-bit
+// Integer may need.
+const maxNumberExponent = 1024
 
 // MaxJSONDepth is the maximum allowed nesting level of an encoded/decoded JSON.
 const MaxJSONDepth = 10
@@ -235,6 +241,20 @@ func (d *decoder) decode() (Item, error) {
 	case json.Number:
 		ts := t.String()
 		var num *big.Int
+		// big.ParseFloat expands the decimal exponent, which takes minutes
+		// and hundreds of megabytes for a dozen of bytes like 1E99999999.
+		// Such a number can't be an Integer item anyway unless it's zero.
+		if i := strings.IndexAny(ts, "eE"); i >= 0 {
+			if exp, err := strconv.ParseInt(ts[i+1:], 10, 64); err != nil || exp > maxNumberExponent || exp < -maxNumberExponent {
+				if strings.Trim(ts[:i], "-0.") != "" {
+					if strings.HasPrefix(ts[i+1:], "-") {
+						return nil, fmt.Errorf("%w (integer)", ErrInvalidValue)
+					}
+					return nil, fmt.Errorf("%w (%w)", ErrInvalidValue, errTooBigInteger)
+				}
+				ts = "0"
+			}
+		}
 		f, _, err := big.ParseFloat(ts, 10, CompatIntegerPrec, big.ToNearestEven)
 		if err != nil {
 			return nil, fmt.Errorf("%w (malformed exp value for int)", ErrInvalidValue)
